@@ -15,7 +15,7 @@ LEVEL = "exploration"
 RULE = ("grid: curves 1..40 x rows {1,2,3} x wrap {F,T} x engine {numpy, normal} under default options (contains every "
         "multiple of the default line capacity 7), plus a capacity sweep per (fmt, len_numeric_field, spacer, data_width); "
         "random: rows 1..30, curves 1..40, samples from magnitude classes (0, 1e-300..1e300, integers, half-way cases of "
-        "the printed digit, long mantissas, NULL-equal index samples), NaN density 0..60% off the index, options from "
+        "the printed digit, long mantissas, samples next to the NULL value, NULL-equal index samples), NaN density 0..60% off the index, options from "
         "version x wrap x fmt x column_fmt x len_numeric_field x spacer x lhs_spacer x data_width x mnemonics_header x "
         "data_section_header. distinct = distinct (curve count, row class, option tuple, value classes, engine); "
         "non-trivial = (>= 2 curves or >= 2 rows) and >= 1 finite non-integer sample")
@@ -80,7 +80,7 @@ def random_case(rng, tier):
     if rng.random() < 0.3:
         o["data_section_header"] = rng.choice(["~A", "~ASCII Log Data", "~ASCII"])
     return {"n": n, "r": rng.choice([1, 2, 3, 5, 12, 30]), "opts": o, "engine": rng.choice(["numpy", "normal"]),
-            "values": rng.choice(["plain", "wide", "wide", "halfway", "ints"]), "nan": rng.choice([0, 0, 0.2, 0.6]),
+            "values": rng.choice(["plain", "wide", "wide", "halfway", "ints", "nearnull"]), "nan": rng.choice([0, 0, 0.2, 0.6]),
             "null": rng.choice([-999.25, -9999, 0, 999.25, 2147483647]), "seed": rng.randrange(10 ** 9)}
 
 
@@ -96,6 +96,9 @@ def make_values(case):
             return round(rng.uniform(-1000, 3000), 4)
         if kind == "ints":
             return float(rng.randint(-5000, 5000))
+        if kind == "nearnull":
+            nv = float(null)
+            return nv + rng.choice([-1, 1]) * rng.choice([1e-3, 4e-3, 0.05, 0.011, 1.0, abs(nv) * 3e-6 + 2e-3])
         if kind == "halfway":
             return rng.choice([0.000005, 1.000005, 2.5, 0.125, 1234.565, -0.005, 0.0049999, 99.9999949, 1e-7]) * rng.choice([1, -1, 10])
         c = rng.random()
